@@ -1,6 +1,9 @@
 package mir
 
-import "compiler/internal/verifrt"
+import (
+	"compiler/internal/types"
+	"compiler/internal/verifrt"
+)
 
 // HarnessAlignTo: alignTo(value, alignment) for every value >= 0 and alignment in {1,2,4,8,16,32}:
 // result >= value, multiple of alignment, < value + alignment.
@@ -13,4 +16,42 @@ func HarnessAlignTo() {
 	verifrt.Assert(r >= v, "alignTo result below value")
 	verifrt.Assert(r%a == 0, "alignTo result not a multiple of the alignment")
 	verifrt.Assert(r < v+a, "alignTo result skips a whole alignment unit")
+}
+
+// HarnessC18LayoutHistory: a DataLayout answers for a struct type from the type alone, whatever it was asked before:
+// two five-field structs whose first two and last fields agree (name and type) and whose middle fields are chosen
+// symbolically from a pool are laid out on ONE DataLayout in either order; each must get the layout a fresh
+// DataLayout gives it, with fields aligned, pairwise disjoint and inside the size.
+func HarnessC18LayoutHistory() {
+	pool := []types.SemType{types.TypeU8, types.TypeU16, types.TypeU32, types.TypeU64}
+	ps := []int{4, 8}[verifrt.Choice("ptr", 2)]
+	mk := func(tag string) *types.StructType {
+		m1 := pool[verifrt.Choice(tag+"1", len(pool))]
+		m2 := pool[verifrt.Choice(tag+"2", len(pool))]
+		return types.NewStruct("", []types.StructField{{Name: "Kind", Type: types.TypeU8}, {Name: "Flags", Type: types.TypeU8},
+			{Name: "Value", Type: m1}, {Name: "Weight", Type: m2}, {Name: "Crc", Type: types.TypeU32}})
+	}
+	s, t := mk("s"), mk("t")
+	shared := NewDataLayout(ps)
+	first, second := s, t
+	if verifrt.Choice("order", 2) == 1 {
+		first, second = t, s
+	}
+	_ = shared.SizeOf(first)
+	_ = shared.StructLayout(first)
+	got := shared.StructLayout(second)
+	want := NewDataLayout(ps).StructLayout(second)
+	verifrt.Assert(got.Size == want.Size && got.Align == want.Align && len(got.Fields) == len(want.Fields), "the layout of a struct depends on which struct was laid out before (size/alignment)")
+	end := 0
+	for i := range got.Fields {
+		if i < len(want.Fields) {
+			verifrt.Assert(got.Fields[i].Offset == want.Fields[i].Offset, "the layout of a struct depends on which struct was laid out before (field offset)")
+		}
+		f := got.Fields[i]
+		verifrt.Assert(f.Offset%shared.AlignOf(f.Type) == 0, "struct field is misaligned")
+		verifrt.Assert(f.Offset >= end, "struct fields overlap")
+		end = f.Offset + shared.SizeOf(f.Type)
+	}
+	verifrt.Assert(end <= got.Size, "struct size does not cover its fields")
+	verifrt.Assert(shared.SizeOf(second) == want.Size, "SizeOf of a struct depends on which struct was laid out before")
 }
